@@ -552,6 +552,79 @@ def work(item):
     return viol, counts, nontriv
 
 
+# ---------------------------------------------------------------------------------------------
+# every pair of fences of the dictionary behaves like a pair of parentheses
+
+def fence_pairs():
+    """(open, close) for every dictionary character with a left-fence form: the close is the next code point if that has a right-fence
+    form (brackets are encoded in adjacent pairs), the character itself if it has both forms (and is not one of the ambiguous bars)"""
+    d = D()
+    out = []
+    for op, forms in sorted(d.items()):
+        if len(op) != 1 or "left" not in forms or op in "([{" or op in AMBIGUOUS or op in PSEUDO_SCRIPTS:
+            continue
+        nxt = chr(ord(op) + 1)
+        if "right" in d.get(nxt, {}) and nxt not in PSEUDO_SCRIPTS and nxt not in AMBIGUOUS:
+            out.append((op, nxt))
+        elif "right" in forms and op not in AMBIGUOUS:
+            out.append((op, op))
+    return out
+
+
+FENCE_TEMPLATES = [
+    ("group-infix", lambda L, R: [L, ("x", "a"), R, ("o", "+"), ("x", "b")]),
+    ("infix-group", lambda L, R: [("x", "a"), ("o", "+"), L, ("x", "b"), R]),
+    ("group-postfix", lambda L, R: [L, ("x", "a"), ("o", "+"), ("x", "b"), R, ("o", "!")]),
+    ("unary-inside", lambda L, R: [L, ("o", "-"), ("x", "a"), R, ("o", "="), ("x", "b")]),
+    ("nested", lambda L, R: [L, L, ("x", "a"), R, ("o", "+"), ("x", "b"), R, ("o", "×"), ("x", "k")]),
+    ("two-groups", lambda L, R: [L, ("x", "a"), R, ("o", "+"), L, ("x", "b"), R]),
+    ("juxtaposed", lambda L, R: [("x", "2"), L, ("x", "a"), ("o", "+"), ("x", "b"), R]),
+]
+
+
+def work_fences(item):
+    """differential: the row with the pair (L, R) must be bracketed exactly like the same row with parentheses"""
+    where, pairs = item
+    mc = mcx.worker_mc()
+    setup = [["rules_dir", mcx.RULES]]
+    P = (("(", "("), (")", ")"))
+    rows = []
+    for L, R in [("(", ")")] + pairs:
+        for tn, f in FENCE_TEMPLATES:
+            rows.append((L, R, tn, f(("(", L), (")", R))))
+    docs = [terms.doc(EMBED[where](render(toks))) for _, _, _, toks in rows]
+    _, res = mc.run_cases(setup, [[["mathml", d]] for d in docs])
+    ref = {}
+    viol, counts, nontriv = [], {"evaluations": 0, "fence_rows": 0, "skipped_panics": 0, "rejected": 0}, []
+    for (L, R, tn, toks), r in zip(rows, res):
+        r = r[0]
+        counts["evaluations"] += 1
+        if is_panic(r):
+            counts["skipped_panics"] += 1
+            continue
+        if not is_ok(r):
+            counts["rejected"] += 1
+            if L != "(":
+                viol.append((f"C03|fence-pair|rejected|{tn}|U+{ord(L):04X}", f"[{where}] {tn} with {L} {R}: set_mathml refused the row although the same row with parentheses is accepted",
+                             {"where": where, "family": "fence-pair", "pair": [L, R], "template": tn}))
+            continue
+        ls = lib_spans(val(r), len(toks))
+        spans = None if ls is None else frozenset(ls[0])
+        if L == "(":
+            ref[tn] = spans
+            continue
+        counts["fence_rows"] += 1
+        nontriv.append(hash((where, L, tn)))
+        if ref.get(tn) is not None and spans != ref[tn]:
+            viol.append((f"C03|fence-pair|bracketing|{tn}|U+{ord(L):04X}", f"[{where}] {tn} with the fences {L} {R} is bracketed {sorted(spans) if spans is not None else 'with changed tokens'}, "
+                         f"with parentheses {sorted(ref[tn])}", {"where": where, "family": "fence-pair", "pair": [L, R], "template": tn}))
+    return viol, counts, nontriv
+
+
+def _dispatch(job):
+    return work_fences(job[1:]) if job[0] == "FENCES" else work(job)
+
+
 def shape(toks):
     """token-kind signature with operators replaced by their dictionary form sets"""
     d = D()
@@ -626,7 +699,11 @@ def confirm(replay, verbose=False):
     old = mcx._worker_mc
     mcx._worker_mc = mc
     try:
-        v, _, _ = work((replay["where"], [(replay["family"], [tuple(t) for t in replay["toks"]])]))
+        if replay.get("family") == "fence-pair":
+            v, _, _ = work_fences((replay["where"], [tuple(replay["pair"])]))
+            v = [x for x in v if x[2]["template"] == replay["template"]]
+        else:
+            v, _, _ = work((replay["where"], [(replay["family"], [tuple(t) for t in replay["toks"]])]))
     finally:
         mcx._worker_mc = old
         mc.close()
@@ -664,7 +741,12 @@ def main(tier):
         return 2
     run.sample({"row": "a ≤ b + k", "doc": terms.doc(row(*render([("x", "a"), ("o", "≤"), ("x", "b"), ("o", "+"), ("x", "k")])))})
     run.sample({"row": "( a + 2 ) ! − k", "embedding": "superscript"})
-    for viol, counts, nontriv in mcx.pmap(work, jobs):
+    fp = fence_pairs()
+    run.count("fence_pairs", len(fp))
+    for where in ("top", "radicand", "numerator"):
+        for i in range(0, len(fp), 12):
+            jobs.append(("FENCES", where, fp[i:i + 12]))
+    for viol, counts, nontriv in mcx.pmap(_dispatch, jobs):
         run.merge_violations(viol)
         run.merge_counts(counts)
         for h in nontriv:
